@@ -31,3 +31,10 @@ pub fn pae_unpack(bytes: &[u8]) -> Result<(Vec<u8>, String)> {
 pub fn pae_try_unpack(bytes: &[u8]) -> Result<(Vec<u8>, String)> {
     crate::models::verif_hooks::DSSEVersion::try_unpack(bytes)
 }
+
+/// The RSA public key (PKCS#1 DER) derived from a PKCS#8 private key document.
+pub fn rsa_public_from_pkcs8(
+    der: &[u8],
+) -> std::result::Result<Vec<u8>, String> {
+    crate::crypto::verif_rsa_public_from_pkcs8(der)
+}
